@@ -1899,3 +1899,38 @@ package engine
 //@   checks only idx
 //@   requires l != nil
 //@   trusted-frame
+
+//@ ---------------------------------------------------------------- sub_atom/5 enumerates every split (C16)
+
+//@ func checkPositiveInteger
+//@   trusted
+//@   modifies nothing
+
+//@ func Delay
+//@   trusted
+//@   modifies nothing
+//@   ensures result != nil
+
+//@ func SubAtom
+//@   property C16
+//@   nosafety
+//@   trusted-frame
+//@   let whole = resolve(env, atom)
+//@   let sub = resolve(env, subAtom)
+//@   bind e1 = checkPositiveInteger#1
+//@   bind e2 = checkPositiveInteger#2
+//@   bind e3 = checkPositiveInteger#3
+//@   bind d = Delay#1
+//@   loop 1 invariant true
+//@   loop 2 invariant true
+//@   at-call checkPositiveInteger#1 requires[before-is-checked] a0 == before && a1 == env
+//@   at-call checkPositiveInteger#2 requires[length-is-checked] a0 == length && a1 == env
+//@   at-call checkPositiveInteger#3 requires[after-is-checked] a0 == after && a1 == env
+//@   ensures[every-split-is-offered-unless-an-argument-is-in-error] whole is Atom && called(e1) && e1 == nil && called(e2) && e2 == nil && called(e3) && e3 == nil &&
+//@       (sub is Variable || sub is Atom) ==> called(d) && result == d
+//@   ensures[the-whole-must-be-an-atom] !(whole is Atom) ==> !called(d)
+
+//@ func SubAtom$1
+//@   property C16
+//@   nosafety
+//@   at-call Unify requires[each-alternative-offers-its-own-split-to-the-caller-s-pattern] a0 == vm && a1 == pattern && a3 == k && a4 == env
